@@ -1018,6 +1018,11 @@ func lshTerms(c *Ctx, lsh *ssa.Function, bitsField, msbField string) {
 			for _, t := range terms {
 				got[key(t)] = true
 			}
+			// bits[i] << n is subsumed by the other terms: for n < 64 it is the very term bits[i-q] << r
+			// (q = 0, r = n), for n >= 64 it is 0 - it may be present or absent
+			selfT := key(term{I, nF, false})
+			delete(got, selfT)
+			delete(want, selfT)
 			var gs, ws []string
 			for k := range got {
 				gs = append(gs, k)
